@@ -131,8 +131,16 @@ func judge(c Case, w *vkit.W) {
 	if fb, err := size.DefaultFormatter(nil, s, size.FormatPretty); err == nil {
 		w.RetainBytes(c, "DefaultFormatter(nil)", fb, pretty)
 	}
-	if got := s.BytesString(); got != strconv.FormatUint(c.S, 10) {
-		w.Fail(c, "bytes-string", fmt.Sprintf("Size(%d).BytesString() = %q", c.S, got))
+	if c.S%4 == 2 || c.S < 64 || c.S&(c.S-1) == 0 { // the returned bytes belong to the caller
+		for _, fw := range []struct {
+			f    size.Format
+			want string
+		}{{0, plain}, {size.FormatPretty, pretty}, {size.FormatPretty | size.FormatHTML, html}} {
+			fw := fw
+			if b2, err := size.DefaultFormatter(nil, s, fw.f); err == nil {
+				w.Owned(c, "DefaultFormatter(nil)", b2, fw.want, func() ([]byte, error) { return size.DefaultFormatter(nil, s, fw.f) })
+			}
+		}
 	}
 }
 
@@ -222,6 +230,20 @@ func TestCheck(t *testing.T) {
 			})
 			restore()
 		}
+	})
+	// Phase A01: a value and, right after it, the values that differ from it in one high bit or by 2^k: whatever is remembered
+	// about the previous rendering must not be taken for this one.
+	r.Phase("A01: each of 6000 strata values followed immediately by its aliases (one bit of 63, 62, 53, 32, 31, 16, 8 flipped; +-2^32; x1024; /1024)", func() {
+		r.Parallel(6000, 64, func(w *vkit.W, lo, hi int64) {
+			for i := lo; i < hi; i++ {
+				v := strata[(i*int64(len(strata)))/6000]
+				for _, a := range []uint64{v ^ 1<<63, v ^ 1<<62, v ^ 1<<53, v ^ 1<<32, v ^ 1<<31, v ^ 1<<16, v ^ 1<<8, v + 1<<32, v - 1<<32, v << 10, v >> 10, ^v} {
+					judge(Case{S: v}, w)
+					judge(Case{S: a}, w)
+					w.EvalRandom(vkit.HashU(v, a, 13), nontrivial(a))
+				}
+			}
+		})
 	})
 	r.Phase(fmt.Sprintf("A: %d stratified values (all < 2^20, odd x 2^k, decimal lengths, neighbours of 1000^k/1024^k, m x 1024^k, top 2049)", len(strata)), func() {
 		r.Parallel(int64(len(strata)), 4096, func(w *vkit.W, lo, hi int64) {
